@@ -60,7 +60,7 @@ def gen_cases(rng, tier):
     n = 700 if tier == "quick" else 12000
     for i in range(n):
         tx = gen_tx(rng)
-        mode = rng.choice(["thick", "thick", "thick", "thin", "blocks_cds"])
+        mode = rng.choice(["thick", "thick", "thick", "thin", "blocks_cds", "gene"])
         cases.append({"k": "bed", "tx": tx, "mode": mode, "color": rng.choice([None, None, "255, 0,0", " 1,2,3 "]),
                       "name_field": rng.choice(["ID", "ID", "Name", "nope"]), "seed": rng.randrange(1 << 30)})
     # block types that INCLUDE the thick type (the usage bed12's docstring recommends): 5'UTR + CDS + 3'UTR tile the
@@ -93,7 +93,7 @@ def valid_case(c):
     try:
         if c["k"] in ("bed", "tobed"):
             tx = c["tx"]
-            if not (1 <= tx["s"] <= tx["e"]) or tx["strand"] not in "+-" or c["mode"] not in ("thick", "thin", "blocks_cds", "tiled"):
+            if not (1 <= tx["s"] <= tx["e"]) or tx["strand"] not in "+-" or c["mode"] not in ("thick", "thin", "blocks_cds", "tiled", "gene"):
                 return False
             for key in ("exons", "cds", "utr"):
                 last = 0
@@ -129,11 +129,30 @@ def shrinks(c):
             yield dict(c, seq=c["seq"][1:], s=c["s"] - 1, e=c["e"] - 1)
 
 
+_FA_DIR = [None, None]
+
+
+def fasta_dir():
+    import atexit, shutil
+    if _FA_DIR[0] is None or _FA_DIR[1] != os.getpid() or not os.path.isdir(_FA_DIR[0]):
+        base = os.environ.get("VERIF_SCRATCH")          # removed by tools/check.py when the run ends
+        d = tempfile.mkdtemp(prefix="c18_", dir=base if base and os.path.isdir(base) else None)
+        _FA_DIR[0], _FA_DIR[1] = d, os.getpid()
+        if not base:
+            atexit.register(shutil.rmtree, d, True)
+    return _FA_DIR[0]
+
+
 def tx_lines(c):
     import random
     tx = c["tx"]
     attrs = "ID=tx1" + (";Name=nm1" if tx["name"] else "")
     head = "\t".join(["chr1", "src", "mRNA", str(tx["s"]), str(tx["e"]), tx["score"], tx["strand"], ".", attrs])
+    if c.get("mode") == "gene":
+        # a single-isoform gene: blocks and thick features are the gene's grandchildren
+        gattrs = "ID=g1" + (";Name=nm1" if tx["name"] else "")
+        ghead = "\t".join(["chr1", "src", "gene", str(tx["s"]), str(tx["e"]), tx["score"], tx["strand"], ".", gattrs])
+        head = ghead + "\n" + "\t".join(["chr1", "src", "mRNA", str(tx["s"]), str(tx["e"]), ".", tx["strand"], ".", "ID=tx1;Parent=g1"])
     kids = []
     for t, key in (("exon", "exons"), ("CDS", "cds"), ("UTR", "utr")):
         for i, (a, b) in enumerate(tx[key]):
@@ -156,9 +175,14 @@ def run_impl(c):
         except Exception as ex:
             return {"len": ["err", L.err_class(ex)]}
     if c["k"] == "seq":
-        d = tempfile.mkdtemp(prefix="c18")
+        # the reference lives at ONE path per worker process and is rewritten for every case: what sequence() returns must
+        # follow the file's current content (the index written next to it is removed with the old content)
+        d = fasta_dir()
         try:
             fa = os.path.join(d, "r.fa")
+            for stale in (fa, fa + ".fai"):
+                if os.path.exists(stale):
+                    os.unlink(stale)
             with open(fa, "w") as fh:
                 fh.write(">chr1\n")
                 for i in range(0, len(c["seq"]), 7):
@@ -169,8 +193,7 @@ def run_impl(c):
             except Exception as ex:
                 return {"seq": ["err", L.err_class(ex)]}
         finally:
-            import shutil
-            shutil.rmtree(d, ignore_errors=True)
+            pass
     db = gffutils.create_db("\n".join(tx_lines(c)) + "\n", ":memory:", from_string=True)
     kw = {"name_field": c["name_field"], "color": c["color"]}
     if c["mode"] == "thin":
@@ -180,9 +203,10 @@ def run_impl(c):
     elif c["mode"] == "tiled":
         kw.update(block_featuretype=["UTR", "CDS"], thick_featuretype="CDS")
     out = {}
-    for tag, arg in (("by_id", "tx1"), ("by_feature", None)):
+    top = "g1" if c["mode"] == "gene" else "tx1"
+    for tag, arg in (("by_id", top), ("by_feature", None)):
         try:
-            out[tag] = ["ok", db.bed12(arg if arg else db["tx1"], **kw)]
+            out[tag] = ["ok", db.bed12(arg if arg else db[top], **kw)]
         except Exception as ex:
             out[tag] = ["err", L.err_class(ex)]
     try:
@@ -205,13 +229,15 @@ def coq_case(c, o):
     if c["k"] == "seq":
         return "CSeq %s %s %s %s %s %s" % (L.s(c["seq"]), L.z(c["s"]), L.z(c["e"]), L.s(c["strand"]), L.b(c["use_strand"]), L.res(o["seq"], L.s))
     tx = c["tx"]
-    attrs = [["ID", ["tx1"]]] + ([["Name", ["nm1"]]] if tx["name"] else [])
-    feat = imp.coq_row(imp.mkfeat(seqid="chr1", source="src", type_="mRNA", s=tx["s"], e=tx["e"], score=tx["score"], strand=tx["strand"], attrs=attrs), "tx1")
+    top = "g1" if c.get("mode") == "gene" else "tx1"
+    attrs = [["ID", [top]]] + ([["Name", ["nm1"]]] if tx["name"] else [])
+    feat = imp.coq_row(imp.mkfeat(seqid="chr1", source="src", type_="gene" if top == "g1" else "mRNA", s=tx["s"], e=tx["e"], score=tx["score"],
+                                  strand=tx["strand"], attrs=attrs), top)
     name = dict(attrs).get(c["name_field"])
     nm = L.opt(name, L.ss, "(list str)")
     if c["k"] == "tobed":
         return "CToBed %s %s %s %s" % (feat, L.lst(kid_rows(tx, "exons", "exon"), "row"), nm, L.res(o["to_bed12"], L.s))
-    if c["mode"] == "thick":
+    if c["mode"] in ("thick", "gene"):
         blocks, mode = kid_rows(tx, "exons", "exon"), "(ThickBy %s)" % L.lst(kid_rows(tx, "cds", "CDS"), "row")
     elif c["mode"] == "thin":
         blocks, mode = kid_rows(tx, "exons", "exon"), "(ThinBy %s)" % L.lst(kid_rows(tx, "utr", "UTR"), "row")
